@@ -74,7 +74,10 @@ LegacyAsModel(doc, req, obs) ==
    /\ Gist(obs) = Gist(p)
    /\ obs.k = "route" => obs.m = p.m /\ obs.op = p.op /\ SameParams(obs.params, p.params)
 
-(* F-C09-7 / F-C09-8: what legacy FindRoute matches is not the wire path.  The           *)
+(* F-C09-7 / F-C09-8 (both FIXED in /repo: efc0e5c, f36c066; CurLegacyObs now has wirePath *)
+(* on, so the two predicates below can no longer hold -- a fragment or an encoded        *)
+(* segment that still changes the result is reported as a violation):                    *)
+(* what legacy FindRoute matches is not the wire path.  The           *)
 (* observation is the model's, and the model that is handed the wire path (no query, no  *)
 (* fragment, not decoded) answers differently.                                           *)
 (*  F-C09-7 (servers declared): Servers.MatchURL cuts url.String() at the first "?"      *)
